@@ -1869,8 +1869,8 @@ fn oracle_c20(fields: &[&str]) -> String {
     if flag("rt") {
         let dir2 = if flag("inv") { Fwd } else { Inv };
         let n2 = ctx.apply(op, dir2, &mut data).unwrap_or(0);
-        if n1 != n2 || n1 != tuples.len() {
-            return "oracle skip roundtrip with failing tuples".to_string();
+        if n1 != n2 {
+            return "oracle FAIL kp ends normally although the two directions report different numbers of successes".to_string();
         }
         for (d, o) in data.iter_mut().zip(tuples.iter()) {
             *d = *d - *o;
@@ -2756,6 +2756,9 @@ fn oracle_c10(fields: &[&str]) -> String {
         if clean_in && n == 0 && worked_finite {
             return format!("oracle FAIL {def} {dir}: tuple ({}, {}, {}, {}) is not counted but comes back looking valid ({}, {}, {}, {})", p[0], p[1], p[2], p[3], o[0], o[1], o[2], o[3]);
         }
+        if n == 0 && p.0.iter().all(|v| !v.is_nan()) && (0..4).all(|j| !o[j].is_nan()) {
+            return format!("oracle FAIL {def} {dir}: tuple ({}, {}, {}, {}) is not counted but carries no NaN: ({}, {}, {}, {})", p[0], p[1], p[2], p[3], o[0], o[1], o[2], o[3]);
+        }
         if clean_in && n == 1 && worked_nan {
             return format!("oracle FAIL {def} {dir}: tuple ({}, {}, {}, {}) is counted as a success but carries NaN", p[0], p[1], p[2], p[3]);
         }
@@ -2787,7 +2790,9 @@ fn oracle_c10(fields: &[&str]) -> String {
         }
         if n == 1 {
             for &j in &kept {
-                if o[j].to_bits() != p[j].to_bits() && !(o[j].is_nan() && p[j].is_nan()) {
+                // (an infinite height or time is beyond what the property quantifies over: the iteration of
+                // gridshift's inverse turns it into NaN through inf - inf)
+                if o[j].to_bits() != p[j].to_bits() && !(o[j].is_nan() && p[j].is_nan()) && !p[j].is_infinite() {
                     return format!("oracle FAIL {def} {dir}: element {j} is not worked on but came back changed ({} -> {})", p[j], o[j]);
                 }
             }
@@ -3575,6 +3580,10 @@ fn oracle_c05(fields: &[&str]) -> String {
     let h = 1e-4;
     for p in &pts {
         let (lon, lat) = (p[0], p[1].clamp(-1.5, 1.5));
+        // a projection that maps nothing has no geometry to speak of: the points are points of the domain
+        if lon.is_finite() && lat.is_finite() && f(lon, lat).is_none() {
+            return format!("oracle FAIL {def}: the point ({lon}, {lat}) of the domain cannot be projected");
+        }
         let mut grab = |dlon: f64, dlat: f64| f(lon + dlon, lat + dlat);
         let (Some(a1), Some(a2), Some(a3), Some(a4)) = (grab(-2.0 * h, 0.0), grab(-h, 0.0), grab(h, 0.0), grab(2.0 * h, 0.0)) else { continue };
         let (Some(b1), Some(b2), Some(b3), Some(b4)) = (grab(0.0, -2.0 * h), grab(0.0, -h), grab(0.0, h), grab(0.0, 2.0 * h)) else { continue };
